@@ -29,3 +29,9 @@ fn bump(x: &mut u8) { *x = 255; }
 pub fn bad_mut_arg(a: u8) -> u8 { let mut v = a & 1; bump(&mut v); v + 1 }
 pub fn bad_mut_write(a: u8) -> u8 { let mut v = a & 1; let p = &mut v; *p = 255; v + 1 }
 pub fn bad_mut_loop(xs: &[u8]) -> u8 { let mut v = 0u8; for _ in xs { bump(&mut v); } v + 1 }
+pub fn bad_field_mut(a: u8) -> u8 { let mut t = (a & 1, 0u8); let p = &mut t.0; *p = 255; t.0 + 1 }
+pub struct S { x: u8 }
+fn setx(s: &mut S) { s.x = 255 }
+pub fn bad_struct_mut(a: u8) -> u8 { let mut s = S { x: a & 1 }; setx(&mut s); s.x + 1 }
+pub fn bad_ptr_unknown(p: &mut u8, a: u8) -> u8 { let mut v = a & 1; let q = if a > 3 { &mut v } else { p }; *q = 255; v + 1 }
+pub fn ok_field_guard(t: (u8, u8)) -> u8 { if t.0 < 10 { t.0 + 1 } else { 0 } }
